@@ -142,7 +142,12 @@ pub fn build_tree(work: &str, seed: u64, variant: u64) -> Tree {
         mk(if d.is_empty() { n.clone() } else { format!("{}/{}", d, n) }, &mut files);
     }
     // large files (read loops, size classes): one byte over 2 MiB, and ~5 MiB
-    for (rel, len) in [("sub/big-2m1.bin", (2usize << 20) + 1), ("big-5m.webm", (5usize << 20) + 13)] {
+    let mut big: Vec<(&str, usize)> = vec![("sub/big-2m1.bin", (2usize << 20) + 1), ("big-5m.webm", (5usize << 20) + 13)];
+    if variant < 4 {
+        // more than any socket buffer holds (over-the-wire phase: a stalled reader makes the server's write block)
+        big.push(("sub/big-12m.bin", (12usize << 20) + 5));
+    }
+    for (rel, len) in big {
         let mut content = format!("HV-FILE-{}-big-{}|", variant, rel).into_bytes();
         let mut x = seed ^ (len as u64) ^ (variant << 32) | 1;
         while content.len() < len {
@@ -281,6 +286,7 @@ pub struct Lab {
     call: CallFn,
     /// signature prefix: "" for the threaded runtime, "tokio:" for the tokio one
     pub sig: &'static str,
+    pub root_used: &'static str,
 }
 
 impl Lab {
@@ -290,7 +296,7 @@ impl Lab {
         let root_plain: &'static str = Box::leak(tree.root.to_str().unwrap().to_string().into_boxed_str());
         let root_slash: &'static str = Box::leak(format!("{}/", root_plain).into_boxed_str());
         let root_used = if variant % 2 == 0 { root_plain } else { root_slash };
-        Lab { tree, call: bind(root_used), sig }
+        Lab { tree, call: bind(root_used), sig, root_used }
     }
 }
 
@@ -397,7 +403,10 @@ pub fn check(r: &mut Report, lab: &Lab, h: Handler, route: &str, rest: &str, cac
 const SEGS: [&str; 26] = ["sub", "a.txt", "nope", "index.html", ".", "..", "...", "", "%2e%2e", "%2E.", ".%2e", "%2f", "%5c", "%00", "%252e%252e", "%c0%ae%c0%ae", "sp%20ace.txt", "sp ace.txt", "canary.txt", "..%2f", "%2e%2e%2f..", "..\\", "root", "root-evil", "deep", "%2e"];
 
 /// The whole workload. `handlers` = those this runtime provides; `bind` binds them to a directory string.
-pub fn run(args: &Args, handlers: &'static [Handler], bind: fn(&'static str) -> CallFn, sig: &'static str, runtime: &'static str) {
+/// `over_the_wire`: optional extra phase run by shards 0..3 on their tree: (report, tree, directory string as bound).
+pub type WireFn = fn(&mut Report, &Tree, &'static str, u64);
+
+pub fn run(args: &Args, handlers: &'static [Handler], bind: fn(&'static str) -> CallFn, sig: &'static str, runtime: &'static str, over_the_wire: Option<WireFn>) {
     let out = args.get("out").expect("--out");
     let seed = args.seed();
     let work = args.get("work").unwrap_or("/verif/.work").to_string();
@@ -492,6 +501,9 @@ pub fn run(args: &Args, handlers: &'static [Handler], bind: fn(&'static str) -> 
                     }
                 }
             }
+        }
+        if let (Some(f), true) = (over_the_wire, shard < 4) {
+            f(&mut r, &lab.tree, lab.root_used, seed ^ shard as u64);
         }
         if shard == 0 {
             r.count("composition_space", total as u64);
